@@ -70,7 +70,12 @@ def op_comment(c):
     r2 = str(cm)
     cm.append(c['more'])
     r3 = str(cm)
+    # the in-place operator is the other way to extend: same object afterwards, same rendering as append
+    cm2 = Comment(build(c['c']))
+    alias = cm2
+    cm2 += c['more']
     return {'lines': before, 'r1': r1, 'lines_after': mid, 'r2': r2, 'lines_ext': list(cm.lines), 'r3': r3,
+            'iadd_same_object': cm2 is alias, 'iadd_type': type(cm2).__name__, 'r3_iadd': str(cm2), 'r3_alias': str(alias),
             'in_list': str(TextBlock([Comment(build(c['c']))])), 'direct': TextBlock(Comment(build(c['c']))).lines}
 
 
